@@ -333,6 +333,18 @@ def file_write_models(ctx, decide):
     return m
 
 
+def elems_of(x):
+    """Code points of a candidate as the Suggestion carries it (a String) or as the assembly keeps it (a Rank)."""
+    x = x.get() if isinstance(x, Ref) else x
+    if hasattr(x, "elems"):
+        return x.elems
+    return x.fields[0].elems
+
+
+def rank_text_elems(prog, r):
+    return elems_of(r)
+
+
 def glue_overrides(st, ctx, k_new):
     """Contract stand-ins for the candidate assembly and the environment."""
     def suggest(it, args, callee):
@@ -498,6 +510,25 @@ def make_phonetic_event(shape):
         if ev in ("key", "backspace") and c.get("calls", 0) > 0 and shape["sug"] and "last_sel" in c:
             ps_now = pm_field(prog, c["pm"], "prev_selection")
             clauses.append(("recorded_preselection_is_the_assemblys_answer", simp(bv(ps_now, 64) == bv(c["last_sel"], 64))))
+        # what is shown is the assembly's answer for the text as it now stands - the list itself and its preselection (a punctuation key may
+        # instead hand back the caller's byte: the method's documented "preserve the user's selection"). When the assembly was not asked
+        # again, the text must not have changed and list and preselection must be the ones recorded with it.
+        if ev in ("key", "backspace") and shape["sug"] and isinstance(ret, Agg) and ret.kind == "adt:Suggestion" and ret.variant == prog.enums["Suggestion"]["Full"]:
+            f = dict(zip(prog.enum_fields[("Suggestion", "Full")], ret.fields))
+            got = f["suggestions"].items
+            s_ret = bv(f["selection"], 64)
+            if "last_sel" in c:
+                want, want_sel = c["last_list"], bv(c["last_sel"], 64)
+            else:
+                want, want_sel = c["shown"], bv(c["prev"], 64)
+            same_list = len(got) == len(want) and all(seq_eq(elems_of(a), rank_text_elems(prog, b)) is not False for a, b in zip(got, want))
+            lst = z3.And([seq_eq(elems_of(a), rank_text_elems(prog, b)) for a, b in zip(got, want)]) if same_list and got else z3.BoolVal(bool(same_list))
+            echo = z3.BoolVal(False)
+            if ev == "key" and len(buf1) == n + 1:
+                echo = z3.And(z3.Or([simp(bv(buf1[-1], 32) == pc) for pc in PUNCT_KEYS]), simp(s_ret == z3.ZeroExt(56, bv(c["sel"], 8))))
+            unchanged = True if "last_sel" in c else (n > 0 and len(buf1) == n and seq_eq(buf1, buf0))
+            clauses.append(("shown_list_and_preselection_are_the_assemblys_answer",
+                            z3.And(lst, z3.Or(simp(s_ret == want_sel), echo), unchanged if not isinstance(unchanged, bool) else z3.BoolVal(unchanged))))
         # the memo is a pure cache the suffix joining of longer words reads without recomputing: no event of a word drops an entry
         kept = [e for e in c["memo"].entries if e[0] is c["memo_key"] and e[1] is c["memo_val"]]
         clauses.append(("memo_entries_survive_the_event", len(kept) == 1 and len(c["memo_val"].items) == 1))
@@ -702,6 +733,8 @@ def obl_phonetic_glue(check, max_n, budget_s=None):
             found = selection_search_other(vs[0])
         elif vs[0]["clause"] == "recorded_preselection_is_the_assemblys_answer":
             found = stale_preselection_search()
+        elif vs[0]["clause"] == "shown_list_and_preselection_are_the_assemblys_answer":
+            found = shown_answer_search()
         elif vs[0]["clause"] == "memo_entries_survive_the_event":
             found = memo_eviction_search()
         elif vs[0]["clause"] in ("flag_matches_state", "terminating_event_clears_composition", "idle_backspace_starts_nothing", "backspace_progress",
@@ -727,6 +760,47 @@ def obl_phonetic_glue(check, max_n, budget_s=None):
         if worst[st] > worst[status]:
             status = st
     check.obligation(name, "mirsym", status, detail + "; %d counterexample models" % len(vio))
+
+
+def shown_answer_search():
+    """Native: the list and the preselection shown after an edit history (punctuation typed with some selection byte and erased again, a
+    letter typed and erased, a key without a character, the same word once more after a commit / finish) against a new context that
+    types the surviving text directly (same user files)."""
+    import obl_assembly
+    keys = obl_assembly.char_keys()
+    cfg = {"layout": "avro_phonetic", "database": REPO + "/data", "opts": {"phonetic_suggestion": True}}
+    store = "phonetic-candidate-selection.json"
+
+    def typ(t, ctx=0, sel=0):
+        return [{"op": "key", "ctx": ctx, "key": keys[ch], "sel": sel} for ch in t]
+    scs, meta = [], []
+    for w in ("sesh", "amar", "a", "boi", "k"):
+        hists = []
+        for pc in (",", ".", "!", ";", ")", "'"):
+            for sb in (0, 1, 2):
+                hists.append(("%r, then %r pressed with selection byte %d, then BackSpace" % (w, pc, sb), typ(w) + typ(pc, sel=sb) + [{"op": "backspace", "ctx": 0}], {}))
+        hists.append(("%r, one more letter, BackSpace" % w, typ(w) + typ("s") + [{"op": "backspace", "ctx": 0}], {}))
+        hists.append(("%r, then a key without a character (keypad Enter)" % w, typ(w) + [{"op": "key", "ctx": 0, "key": 0x0E1C, "sel": 0}], {}))
+        for learn in (1, 2):
+            hists.append(("%r typed, candidate %d committed, %r typed again at once" % (w, learn, w), typ(w) + [{"op": "commit", "ctx": 0, "index": learn}] + typ(w), {"after_commit": True}))
+            hists.append(("%r typed, candidate %d committed, another word typed and finished, %r typed again" % (w, learn, w),
+                          typ(w) + [{"op": "commit", "ctx": 0, "index": learn}] + typ("ki") + [{"op": "finish", "ctx": 0}] + typ(w), {"after_commit": True}))
+        hists.append(("%r typed and finished, %r typed again" % (w, w), typ(w) + [{"op": "finish", "ctx": 0}] + typ(w), {}))
+        for name, h, fl in hists:
+            steps = [{"op": "new", "ctx": 0, "config": cfg}] + h
+            a = len(steps) - 1
+            steps += [{"op": "new", "ctx": 1, "config": cfg}] + typ(w, ctx=1)
+            scs.append({"steps": steps})
+            meta.append((name, w, a))
+    for (name, w, a), sc, r in zip(meta, scs, run_replay_parallel(scs)):
+        rr = r["results"]
+        if any("panic" in x for x in rr):
+            continue      # a commit index outside a short list: not in contract
+        x, y = rr[a].get("suggestion", {}), rr[-1].get("suggestion", {})
+        if (x.get("list"), x.get("sel")) != (y.get("list"), y.get("sel")):
+            return sc, [rr[a], rr[-1]], ("%s: the context shows %s with candidate %s preselected; a new context (same user files) typing %r shows %s with candidate %s preselected" % (
+                name, x.get("list", [])[:4], x.get("sel"), w, y.get("list", [])[:4], y.get("sel")))
+    return None
 
 
 def stale_preselection_search():
